@@ -1,5 +1,15 @@
 """C13 - force-directed relocation (tools/force/fruchterman_reingold.py:
-fruchterman_reingold_layout, force_algorithm, total_intersection_area)."""
+fruchterman_reingold_layout, force_algorithm, total_intersection_area).
+
+A case is a netlist + die and a HISTORY: a list of steps applied to ONE object graph (the Die and its Netlist),
+  {"op": "layout", "kappa", "max_iter"} / {"op": "algo", "max_iter"}   the relocation calls, on the die as it is
+  {"op": "squares"}     Netlist.create_squares()            (the default squares SHARE the centre Points)
+  {"op": "alloc"}       create_initial_allocation(die)      (what the tool chain does before/after relocating)
+  {"op": "set", "how": "inplace" | "assign", "mod", "c"}    the caller writes a centre (on the Point / a new Point)
+  {"op": "deepcopy"} / {"op": "newdie"}                     deepcopy(die) / a new Die object on the same netlist
+  {"op": "reread"}      Netlist(netlist.write_yaml()) in a new Die: what the next tool of the chain starts from
+Every relocation call of the history is judged on its own: from the VALUES the objects hold when it starts."""
+import copy
 import math
 import os
 from fractions import Fraction as F
@@ -9,7 +19,7 @@ os.environ.setdefault("MPLBACKEND", "Agg")          # the force module imports t
 from harness import core, fr
 from harness.core import gq, gbool, glist, gopt, gnat
 
-HEADER = """From FrameModel Require Import Num.QcTac Cases.Cmp Force.FR Cases.CmpC13.
+HEADER = """From FrameModel Require Import Num.QcTac Cases.Cmp Force.FR Force.FRSeq Cases.CmpC13.
 Open Scope Qc_scope."""
 
 ASSUMPTIONS = [
@@ -27,6 +37,14 @@ ASSUMPTIONS = [
     "modules (each unordered pair counted twice), as the anchored total_intersection_area does",
     "the argmin oracle recomputes every candidate layout with the public fruchterman_reingold_layout and its own cost "
     "function; ties are broken towards the first constant (theorem C13_fa_argmin); tolerance 1e-9 relative",
+    "histories: every relocation call is judged from the values its die holds when the call starts (snapshot by value "
+    "through the public getters, independent of which objects are shared); determinism = the same call on (a) a deep copy "
+    "of the die taken just before the call and (b) a die rebuilt from the YAML text with the same values written into "
+    "fresh objects must return exactly the same centres and leave the same values; the candidates of the argmin clause "
+    "are computed on such rebuilt dies; what callers do between calls (create_squares, Allocation, writing centres) is "
+    "not judged, only followed (the model gets the payload values observed after such a step)",
+    "the correspondence carries the MODEL state through the history (Cases/CmpC13.v hist_ok): the trace of every call is "
+    "replayed from the values the model has reached, never from the centres read back from the objects",
 ]
 
 KAPPAS = [i / 10 for i in range(4, 16)]
@@ -39,7 +57,11 @@ def q(rng, lo, hi, den):
     return F(rng.randrange(int(lo * den), int(hi * den) + 1), den)
 
 
-def gen_case(rng, force_mode=None):
+NAMES = ["H1", "H1_0", "H1_io", "H10", "H", "H_1", "h1", "H1_", "_H1", "H1_0_0", "H100", "_", "H01", "H1__0"]
+ITERS = [0, 0, 1, 1, 2, 2, 3, 3, 5, 5, 8, 8, 9, 10, 13, 16, 17, 20]
+
+
+def gen_case(rng, force_mode=None, no_term=False, n=None):
     decimal = rng.random() < 0.25
     if decimal:
         W = F(rng.randrange(10, 200), 10)
@@ -49,8 +71,12 @@ def gen_case(rng, force_mode=None):
         H = q(rng, 1, 48, 4)
         if rng.random() < 0.2:
             H = W
+    # ties: every generated centre on one vertical / horizontal line (the displacement is 0 in one axis)
+    align = rng.choice(["x", "y"]) if rng.random() < 0.12 else None
+    line = None
 
     def point(kind=None):
+        nonlocal line
         kind = kind or rng.choice(["in", "in", "in", "border", "corner", "centre"])
         if decimal:
             x = F(rng.randrange(0, int(W * 10) + 1), 10)
@@ -66,25 +92,43 @@ def gen_case(rng, force_mode=None):
             x, y = rng.choice([F(0), W]), rng.choice([F(0), H])
         elif kind == "centre":
             x, y = W / 2, H / 2
+        if align:
+            if line is None:
+                line = x if align == "x" else y
+            x, y = (line, y) if align == "x" else (x, line)
         return [x, y]
 
-    n = rng.choice([1, 2, 3, 3, 4, 4, 5, 5, 6, 7])
+    big = n is not None
+    n = n or rng.choice([1, 2, 3, 3, 4, 4, 5, 5, 6, 7])
+    # names: M0, M1 .. (M1 / M10 / M11 when there are many) or names that are prefixes / suffixes of each other
+    if not big and rng.random() < 0.2:
+        pool = rng.sample(NAMES, n)
+    else:
+        pool = [f"M{i}" for i in range(n)]
     mods = []
     slots = [(i, j) for i in range(4) for j in range(4)]
     rng.shuffle(slots)
     coincide = point() if rng.random() < 0.3 else None
+    same_area = rng.random() < 0.2
+    the_area = None
+    # a netlist of terminals only has no length scale (Netlist sets the rectangle tolerance to inf and Die()
+    # refuses it - not an input of this tool): one module, anywhere in the list, has an area
+    anchor = rng.randrange(n)
     for i in range(n):
         kinds = ["soft", "soft", "soft", "hard", "term", "termfixed", "termnoc"]
-        if not decimal:
-            kinds += ["fixed", "fixed"]
-        if i == 0:
-            # a netlist of terminals only has no length scale: Netlist sets the rectangle tolerance to
-            # inf and Die() refuses it - not an input of this tool
+        if no_term:
+            kinds = ["soft", "soft", "soft", "hard"]
+        if not decimal and slots:
+            kinds += ["fixed", "fixed"] if not big else ["fixed"]
+        if i == anchor:
             kinds = ["soft", "soft", "hard"] + ([] if decimal else ["fixed"])
         kind = rng.choice(kinds)
-        m = {"name": f"M{i}", "kind": kind}
+        m = {"name": pool[i], "kind": kind}
         if kind == "soft":
             m["area"] = q(rng, F(1, 4), max(F(1, 2), W * H / 4), 4) if not decimal else F(rng.randrange(1, 100), 10)
+            if same_area:
+                the_area = the_area or m["area"]
+                m["area"] = the_area
             m["center"] = list(coincide) if coincide and rng.random() < 0.6 else point()
         elif kind in ("hard", "fixed"):
             if kind == "fixed":
@@ -111,49 +155,214 @@ def gen_case(rng, force_mode=None):
             ar = min(n, rng.choice([2, 2, 3, 4, 5]))
             names = [mods[i]["name"] for i in rng.sample(range(n), ar)]
             nets.append({"mods": names, "w": float(rng.choice(WEIGHTS))})
+        if nets and rng.random() < 0.15:            # equal keys: the same net twice (maybe listed in another order)
+            e = rng.choice(nets)
+            ms = list(e["mods"])
+            if rng.random() < 0.5:
+                ms.reverse()
+            nets.append({"mods": ms, "w": e["w"] if rng.random() < 0.5 else float(rng.choice(WEIGHTS))})
     mode = force_mode or ("algo" if rng.random() < 0.08 else "layout")
     case = {"mode": mode, "decimal": decimal, "W": W, "H": H, "mods": mods, "nets": nets,
-            "kappa": rng.choice(KAPPAS + KAPPAS + [0.01, 10.0, 1.0]),
-            "max_iter": rng.choice([0, 0, 1, 1, 2, 3, 5, 8, 13, 20])}
+            "kappa": rng.choice(KAPPAS + KAPPAS + [0.01, 10.0, 1.0, 1.0]),
+            "max_iter": rng.choice(ITERS), "style": rng.choice(["pos", "pos", "kw"]),
+            # input form: whole numbers written as YAML integers (2 instead of 2.0), also in the die string
+            "ints": rng.random() < 0.3}
     if mode == "algo":
         case["max_iter"] = rng.choice([0, 1, 2, 3, 5, 8])
+    if big:
+        case["max_iter"] = rng.choice([1, 1, 2])
     return case
 
 
-def num(x):
-    return repr(float(x))
+def gen_tie_case(rng):
+    """discs in the positions where the overlap formula changes branch or hits an exact value: tangent from outside
+    (d = r1 + r2), from inside (d = |r1 - r2|), chord through a centre (d^2 + r1^2 = r2^2, 3-4-5), the centre of one
+    on the border of the other (d = r2), concentric; areas pi * r^2 with whole r, centres on whole coordinates.
+    With 0 iterations the cost is evaluated on exactly these centres; with 1-2 the layout starts from them."""
+    r1, r2, d = rng.choice([(3, 5, 4), (3, 5, 8), (3, 5, 2), (3, 4, 5), (5, 5, 5), (3, 5, 0), (5, 12, 13), (3, 3, 6),
+                            (4, 5, 3), (6, 10, 8)])
+    vx, vy = rng.choice([(d, 0), (0, d)] + ([(3 * d // 5, 4 * d // 5)] if d % 5 == 0 else []))
+    S = F(2 * (r1 + r2) + d + 4)
+    W, H = S, S if rng.random() < 0.5 else S + rng.choice([1, 2, 8])
+    c1 = [F(r2 + 2), F(r2 + 2)]
+    c2 = [c1[0] + vx, c1[1] + vy]
+    mods = [{"name": "A", "kind": "soft", "area": F(math.pi * r1 * r1), "center": c1},
+            {"name": "B", "kind": "soft", "area": F(math.pi * r2 * r2), "center": c2}]
+    if rng.random() < 0.5:
+        mods.append({"name": "T", "kind": rng.choice(["term", "termfixed"]), "center": [F(0), H / 2]})
+    if rng.random() < 0.3:
+        mods.reverse()
+    nets = [{"mods": [m["name"] for m in mods], "w": float(rng.choice(WEIGHTS))}] if rng.random() < 0.7 else []
+    mode = rng.choice(["algo", "algo", "layout"])
+    return {"mode": mode, "decimal": True, "W": W, "H": H, "mods": mods, "nets": nets, "kappa": rng.choice(KAPPAS),
+            "max_iter": rng.choice([0, 0, 1, 2]), "style": rng.choice(["pos", "kw"]), "ints": rng.random() < 0.5}
+
+
+def num(x, ints=False):
+    x = float(x)
+    return str(int(x)) if ints and x.is_integer() else repr(x)
 
 
 def netlist_yaml(case):
+    ii = bool(case.get("ints"))
+
+    def nm(x):
+        return num(x, ii)
     lines = []
     for m in case["mods"]:
         k = m["kind"]
         if k == "soft":
-            lines.append(f"  {m['name']}: {{area: {num(m['area'])}, center: [{num(m['center'][0])}, {num(m['center'][1])}]}}")
+            lines.append(f"  {m['name']}: {{area: {nm(m['area'])}, center: [{nm(m['center'][0])}, {nm(m['center'][1])}]}}")
         elif k in ("hard", "fixed"):
-            rs = ", ".join("[" + ", ".join(num(v) for v in r) + "]" for r in m["rects"])
+            rs = ", ".join("[" + ", ".join(nm(v) for v in r) + "]" for r in m["rects"])
             lines.append(f"  {m['name']}: {{rectangles: [{rs}], {'fixed' if k == 'fixed' else 'hard'}: true}}")
         elif k == "term":
-            lines.append(f"  {m['name']}: {{terminal: true, center: [{num(m['center'][0])}, {num(m['center'][1])}]}}")
+            lines.append(f"  {m['name']}: {{terminal: true, center: [{nm(m['center'][0])}, {nm(m['center'][1])}]}}")
         elif k == "termfixed":
-            lines.append(f"  {m['name']}: {{terminal: true, fixed: true, center: [{num(m['center'][0])}, {num(m['center'][1])}]}}")
+            lines.append(f"  {m['name']}: {{terminal: true, fixed: true, center: [{nm(m['center'][0])}, {nm(m['center'][1])}]}}")
         else:
             lines.append(f"  {m['name']}: {{terminal: true}}")
-    nets = ", ".join("[" + ", ".join(e["mods"]) + (f", {num(e['w'])}" if e["w"] != 1 else "") + "]" for e in case["nets"])
+    nets = ", ".join("[" + ", ".join(e["mods"]) + (f", {nm(e['w'])}" if e["w"] != 1 else "") + "]" for e in case["nets"])
     return "Modules: {\n" + ",\n".join(lines) + "\n}\nNets: [" + nets + "]\n"
 
 
+# ---------------------------------------------------------------- histories
+CALLS = ("layout", "algo")
+SHORT = {"layout": "L", "algo": "A", "squares": "sq", "alloc": "al", "deepcopy": "dc", "newdie": "nd", "reread": "rr"}
+
+
+def steps_of(case):
+    if "hist" in case:
+        return case["hist"]
+    style = case.get("style", "pos")
+    if case["mode"] == "layout":
+        return [{"op": "layout", "kappa": case["kappa"], "max_iter": case["max_iter"], "style": style}]
+    return [{"op": "algo", "max_iter": case["max_iter"], "style": style}]
+
+
+def normalise(case):
+    """the one-call cases of the corpus / old replay files, in the history format"""
+    if "hist" in case:
+        return case
+    return {"decimal": case["decimal"], "W": case["W"], "H": case["H"], "mods": case["mods"], "nets": case["nets"],
+            "ints": bool(case.get("ints")), "hist": steps_of(case)}
+
+
+def short(st):
+    if st["op"] == "set":
+        return "si" if st["how"] == "inplace" else "sa"
+    return SHORT[st["op"]]
+
+
+def rand_point(rng, case):
+    W, H = case["W"], case["H"]
+    if case["decimal"]:
+        x, y = F(rng.randrange(0, int(W * 10) + 1), 10), F(rng.randrange(0, int(H * 10) + 1), 10)
+    else:
+        x, y = q(rng, 0, W, 8), q(rng, 0, H, 8)
+    kind = rng.choice(["in", "in", "in", "border", "corner", "centre"])
+    if kind == "border":
+        if rng.random() < 0.5:
+            x = rng.choice([F(0), W])
+        else:
+            y = rng.choice([F(0), H])
+    elif kind == "corner":
+        x, y = rng.choice([F(0), W]), rng.choice([F(0), H])
+    elif kind == "centre":
+        x, y = W / 2, H / 2
+    return [x, y]
+
+
+def gen_call(rng, prev=None, algo_p=0.3, small=True):
+    """a relocation call; with a previous call, often the same parameters again (same die, same arguments)"""
+    if prev is not None and rng.random() < 0.55:
+        st = dict(prev)
+        if rng.random() < 0.3 and st["op"] == "layout":
+            st["kappa"] = rng.choice(KAPPAS)
+        return st
+    style = rng.choice(["pos", "pos", "kw"])
+    if rng.random() < algo_p:
+        return {"op": "algo", "max_iter": rng.choice([1, 2, 2, 3, 4] if small else [0, 1, 2, 3, 5, 8]), "style": style}
+    return {"op": "layout", "kappa": rng.choice(KAPPAS + KAPPAS + [0.01, 10.0, 1.0, 1.0]),
+            "max_iter": rng.choice([0, 1, 1, 2, 3, 5, 8, 9, 10, 13]), "style": style}
+
+
+def gen_set(rng, case, how=None):
+    movable = [m["name"] for m in case["mods"] if m["kind"] in ("soft", "term", "termnoc")]
+    if not movable:
+        return None
+    return {"op": "set", "how": how or rng.choice(["inplace", "assign"]), "mod": rng.choice(movable),
+            "c": rand_point(rng, case)}
+
+
+def gen_hist_case(rng, template):
+    """template: prep (something happens to the objects, then one call), again (call, maybe something, call),
+    walk (3-6 random steps)"""
+    squares_like = template in ("prep", "walk") or rng.random() < 0.5
+    base = gen_case(rng, "layout", no_term=squares_like and rng.random() < 0.75)
+    case = {"decimal": base["decimal"], "W": base["W"], "H": base["H"], "mods": base["mods"], "nets": base["nets"],
+            "ints": base["ints"]}
+    between = ["squares", "alloc", "set", "set", "set", "deepcopy", "newdie", "reread"]
+    hist = []
+
+    def other():
+        op = rng.choice(between)
+        st = gen_set(rng, case) if op == "set" else {"op": op}
+        return st or {"op": "deepcopy"}
+
+    if template == "prep":
+        hist.append({"op": rng.choice(["squares", "squares", "alloc", "alloc", "deepcopy", "newdie", "reread"])})
+        if rng.random() < 0.4:
+            hist.append(other())
+        hist.append(gen_call(rng, algo_p=0.25, small=False))
+    elif template == "again":
+        if rng.random() < 0.35:
+            hist.append({"op": rng.choice(["squares", "alloc"])})
+        first = gen_call(rng, algo_p=0.45)
+        hist.append(first)
+        for _ in range(rng.choice([0, 0, 1, 1, 2])):
+            hist.append(other())
+        hist.append(gen_call(rng, prev=first, algo_p=0.45))
+        if rng.random() < 0.25:
+            if rng.random() < 0.5:
+                hist.append(other())
+            hist.append(gen_call(rng, prev=first, algo_p=0.2))
+    else:
+        prev, ncalls, nalgo = None, 0, 0
+        for _ in range(rng.choice([3, 4, 5, 6])):
+            if rng.random() < 0.45 and ncalls < 3:
+                st = gen_call(rng, prev=prev, algo_p=0.3 if nalgo < 2 else 0.0)
+                if st["op"] == "algo":
+                    if nalgo >= 2:
+                        continue
+                    nalgo += 1
+                prev, ncalls = st, ncalls + 1
+                hist.append(st)
+            else:
+                hist.append(other())
+        if ncalls == 0:
+            hist.append(gen_call(rng, algo_p=0.3))
+    case["hist"] = hist
+    return case
+
+
 # ---------------------------------------------------------------- running the implementation
+def die_spec(case):
+    ii = bool(case.get("ints"))
+    return f"{num(case['W'], ii)}x{num(case['H'], ii)}"
+
+
 def build(case):
     from frame.geometry.geometry import Rectangle
     from frame.netlist.netlist import Netlist
     from frame.die.die import Die
     Rectangle.undefine_epsilon()
     nl = Netlist(netlist_yaml(case))
-    return Die(f"{num(case['W'])}x{num(case['H'])}", nl)
+    return Die(die_spec(case), nl)
 
 
 def snapshot(nl):
+    """everything but the centres, BY VALUE through the public getters (who shares which object does not show)"""
     ms = []
     for m in nl.modules:
         ms.append({"name": m.name, "area": m.area(), "regions": sorted(m.area_regions.items()),
@@ -169,16 +378,61 @@ def centres(nl):
     return [None if m.center is None else [m.center.x, m.center.y] for m in nl.modules]
 
 
-def call(case, die):
+def state(die):
+    nl = die.netlist
+    return {"cs": centres(nl), "fx": [m.is_fixed for m in nl.modules], "snap": snapshot(nl),
+            "die": [die.width, die.height]}
+
+
+def rebuild(case, st):
+    """a die with the values of state st in a NEW object graph that shares nothing: the netlist read from the YAML
+    text again, the centres written as new Points, rectangles that the text does not give (default squares) added
+    as new Rectangles with their own centre Points.  None if the public interface cannot reproduce the values."""
+    from frame.geometry.geometry import Rectangle, Point, Shape
+    die = build(case)
+    nl = die.netlist
+    if len(nl.modules) != len(st["snap"]["mods"]):
+        return None
+    try:
+        for m, ms, c in zip(nl.modules, st["snap"]["mods"], st["cs"]):
+            cur = [[r.center.x, r.center.y, r.shape.w, r.shape.h, r.fixed, r.hard, r.region, r.location.name]
+                   for r in m.rectangles]
+            if cur != ms["rects"]:
+                m.clear_rectangles()
+                for r in ms["rects"]:
+                    rr = Rectangle(center=Point(r[0], r[1]), shape=Shape(r[2], r[3]), fixed=r[4], hard=r[5], region=r[6])
+                    rr.location = Rectangle.StogLocation[r[7]]
+                    m.add_rectangle(rr)
+            if c is not None:
+                m.center = Point(c[0], c[1])
+            elif m.center is not None:
+                return None
+    except AssertionError:
+        return None
+    now = state(die)
+    if now["snap"] != st["snap"] or now["cs"] != st["cs"] or now["fx"] != st["fx"] or now["die"] != st["die"]:
+        return None
+    return die
+
+
+def call(st, die):
     import tools.force.fruchterman_reingold as M
     if M.VERIF_TRACE is None:
         raise RuntimeError("FRAME_VERIF=1 is not set: the trace hook is off")
     M.VERIF_TRACE.clear()
     files_before = set(os.listdir("."))
-    if case["mode"] == "layout":
-        d2, imgs = M.fruchterman_reingold_layout(die, float(case["kappa"]), False, None, int(case["max_iter"]))
+    kw = st.get("style", "pos") == "kw"
+    if st["op"] == "layout":
+        if not kw:
+            d2, imgs = M.fruchterman_reingold_layout(die, float(st["kappa"]), False, None, int(st["max_iter"]))
+        elif float(st["kappa"]) == 1.0:         # the default spring constant, not passed
+            d2, imgs = M.fruchterman_reingold_layout(die, max_iter=int(st["max_iter"]))
+        else:
+            d2, imgs = M.fruchterman_reingold_layout(die, max_iter=int(st["max_iter"]), kappa=float(st["kappa"]))
+    elif kw:
+        d2, imgs = M.force_algorithm(die, max_iter=int(st["max_iter"]))
     else:
-        d2, imgs = M.force_algorithm(die, False, None, int(case["max_iter"]))
+        d2, imgs = M.force_algorithm(die, False, None, int(st["max_iter"]))
     trace = list(M.VERIF_TRACE)
     M.VERIF_TRACE.clear()
     return d2, trace, len(imgs), sorted(set(os.listdir(".")) - files_before)
@@ -231,38 +485,102 @@ def own_cost(areas, names, cs, nets):
     return ov + wl / 2
 
 
-def run_impl(case):
-    die = build(case)
-    nl = die.netlist
-    obs = {"cs": centres(nl), "fx": [m.is_fixed for m in nl.modules], "before": snapshot(nl)}
-    d2, trace, nimgs, newfiles = call(case, die)
-    obs["same_object"] = d2 is die
-    obs["after"] = snapshot(d2.netlist)
-    obs["out"] = centres(d2.netlist)
-    obs["runs"], obs["costs"] = split_trace(trace)
-    obs["imgs"], obs["files"] = nimgs, newfiles
-    # determinism: a second, freshly built, identical input
-    d3, trace2, _, _ = call(case, build(case))
-    obs["out2"] = centres(d3.netlist)
-    obs["trace_equal"] = (split_trace(trace2) == (obs["runs"], obs["costs"]))
-    if case["mode"] == "algo":
-        # independent candidates: each spring constant on its own fresh die, public function, own cost
-        areas = [m["area"] for m in obs["before"]["mods"]]
-        names = [m["name"] for m in obs["before"]["mods"]]
-        import tools.force.fruchterman_reingold as M
+STATS = {"calls": 0, "rebuilt_twin_unavailable": 0, "caller_steps": 0, "caller_steps_raised": 0}
+
+
+def reloc_step(case, die, st):
+    """one relocation call on the die as it is; the same call on two other object graphs with the same values"""
+    import tools.force.fruchterman_reingold as M
+    before = state(die)
+    pristine = copy.deepcopy(die)           # the values (and the sharing) of this moment
+    twins = {"deepcopy": copy.deepcopy(pristine), "rebuilt": rebuild(case, before)}
+    STATS["calls"] += 1
+    STATS["rebuilt_twin_unavailable"] += twins["rebuilt"] is None
+    d2, trace, nimgs, newfiles = call(st, die)
+    after = state(d2)
+    o = {"kind": st["op"], "before": before, "after": after, "same_object": d2 is die,
+         "imgs": nimgs, "files": newfiles, "twins": {}}
+    o["runs"], o["costs"] = split_trace(trace)
+    for name, tw in twins.items():
+        if tw is None:
+            o["twins"][name] = None
+            continue
+        d3, _, _, _ = call(st, tw)
+        s3 = state(d3)
+        o["twins"][name] = {"cs": s3["cs"], "rest_equal": s3["snap"] == after["snap"] and s3["fx"] == after["fx"]}
+    if st["op"] == "algo":
+        # independent candidates: each spring constant on its own die with the values of before the call
+        # (a rebuilt die, else a deep copy), the public layout function, own cost
+        areas = [m["area"] for m in before["snap"]["mods"]]
+        names = [m["name"] for m in before["snap"]["mods"]]
         cand = []
         for k in KAPPAS:
-            dk, _ = M.fruchterman_reingold_layout(build(case), k, False, None, int(case["max_iter"]))
+            dk = rebuild(case, before) or copy.deepcopy(pristine)
+            dk, _ = M.fruchterman_reingold_layout(dk, k, False, None, int(st["max_iter"]))
             M.VERIF_TRACE.clear()
             ck = centres(dk.netlist)
-            cand.append([k, own_cost(areas, names, ck, obs["before"]["nets"]), ck])
-        obs["cand"] = cand
-        if all(c is not None for c in obs["out"]):
-            obs["ret_cost"] = own_cost(areas, names, obs["out"], obs["before"]["nets"])
+            cand.append([k, own_cost(areas, names, ck, before["snap"]["nets"]), ck])
+        o["cand"] = cand
+        if all(c is not None for c in after["cs"]):
+            o["ret_cost"] = own_cost(areas, names, after["cs"], before["snap"]["nets"])
+        # the recorded cost of every trial against the layout recorded for that trial
+        W, H = before["die"]
+        tc = []
+        for r in o["runs"][:len(o["costs"])]:
+            cs = [[p[0] + W / 2, p[1] + H / 2] for p in r["final"]]
+            tc.append(own_cost(areas, names, cs, before["snap"]["nets"]))
+        o["trial_costs"] = tc
+    return o, d2
+
+
+def caller_step(case, die, st):
+    from frame.geometry.geometry import Point
+    from frame.die.die import Die
+    from frame.allocation.allocation import create_initial_allocation
+    nl, raised, op = die.netlist, None, st["op"]
+    try:
+        if op == "squares":
+            nl.create_squares()
+        elif op == "alloc":
+            create_initial_allocation(die)
+        elif op == "deepcopy":
+            die = copy.deepcopy(die)
+        elif op == "newdie":
+            die = Die(die_spec(case), nl)
+        elif op == "reread":
+            from frame.netlist.netlist import Netlist
+            die = Die(die_spec(case), Netlist(nl.write_yaml()))
+        elif op == "set":
+            m = nl.get_module(st["mod"])
+            x, y = float(st["c"][0]), float(st["c"][1])
+            if st["how"] == "inplace" and m.center is not None:
+                m.center.x = x
+                m.center.y = y
+            else:
+                m.center = Point(x, y)
+    except Exception as e:              # e.g. create_squares on a netlist with a terminal: stops half way.  These
+        raised = f"{type(e).__name__}: {e}"     # steps are not what is judged here: whatever state they leave is the input
+    STATS["caller_steps"] += 1
+    STATS["caller_steps_raised"] += raised is not None
+    return {"kind": op, "raised": raised, "after": state(die)}, die
+
+
+def run_impl(case):
+    die = build(case)
+    obs = {"init": state(die), "steps": []}
+    for st in steps_of(case):
+        if st["op"] in CALLS:
+            o, die = reloc_step(case, die, st)
+        else:
+            o, die = caller_step(case, die, st)
+        obs["steps"].append(o)
     return obs
 
 
 # ---------------------------------------------------------------- the model side
+LOCS = ["TRUNK", "NORTH", "SOUTH", "EAST", "WEST", "NO_POLYGON"]
+
+
 def gvec(p):
     return f"({gq(p[0])}, {gq(p[1])})"
 
@@ -272,35 +590,88 @@ def grec(it):
             f"{glist([gq(x) for x in it['nrm']])})")
 
 
+def fin(x):
+    return x if math.isfinite(x) else 0
+
+
+def payload(ms):
+    """the numbers a module carries besides its centre and its fixed flag"""
+    xs = [ms["area"]] + [v for _, v in ms["regions"]] + [int(b) for b in ms["flags"][1:]]
+    xs += [0] if ms["ar"] is None else [1, fin(ms["ar"][0]), fin(ms["ar"][1])]
+    for r in ms["rects"]:
+        xs += [r[0], r[1], r[2], r[3], int(r[4]), int(r[5]), LOCS.index(r[7])]
+    return xs
+
+
+def gpl(xs):
+    return glist([gq(x) for x in xs])
+
+
+def gstate(st):
+    names = [m["name"] for m in st["snap"]["mods"]]
+    cs = glist([gopt(None if c is None else gvec(c)) for c in st["cs"]])
+    fx = glist([gbool(b) for b in st["fx"]])
+    ps = glist([gpl(payload(m)) for m in st["snap"]["mods"]])
+    ns = glist([f"({glist([gnat(names.index(nm)) for nm in ms])}, {gq(w)})" for ms, w in st["snap"]["nets"]])
+    return cs, fx, ps, ns
+
+
+def greloc(st, o):
+    mi = gnat(int(st["max_iter"]))
+    runs, costs = o["runs"], o["costs"]
+    last = runs[-1] if runs else None
+    if st["op"] == "layout":
+        if len(runs) != 1 or costs:
+            raise ValueError(f"unexpected trace shape for a single layout: {len(runs)} runs, {len(costs)} costs")
+        if last["kappa"] != float(st["kappa"]):
+            raise ValueError("the layout ran with another spring constant than the one passed")
+        return f"HLayout {mi} {glist([grec(it) for it in last['iters']])} {glist([gvec(p) for p in last['final']])}"
+    if len(runs) != 13 or len(costs) != 12:
+        raise ValueError(f"unexpected trace shape for force_algorithm: {len(runs)} runs, {len(costs)} costs")
+    if [r["kappa"] for r in runs[:12]] != [k for k, _ in costs]:
+        raise ValueError("the recorded costs are not those of the recorded trial runs")
+    for (k, c), mine in zip(costs, o["trial_costs"]):
+        if not abs(c - mine) <= 1e-9 * max(1.0, abs(mine)):
+            raise ValueError(f"the cost recorded for spring constant {k} ({c!r}) is not the cost of the layout recorded "
+                             f"for that trial ({mine!r})")
+    trials = glist([f"(mkTrial {gq(k)} {gq(c)} {glist([grec(it) for it in r['iters']])} "
+                    f"{glist([gvec(p) for p in r['final']])})" for (k, c), r in zip(costs, runs[:12])])
+    return (f"HAlgo {mi} {trials} {gq(last['kappa'])} {glist([grec(it) for it in last['iters']])} "
+            f"{glist([gvec(p) for p in last['final']])}")
+
+
 def to_coq(case, obs):
-    W, H = gq(case["W"] if not case["decimal"] else float(case["W"])), gq(case["H"] if not case["decimal"] else float(case["H"]))
-    size = max(float(case["W"]), float(case["H"]))
-    tol = gq(F(1, 10 ** 9) * core.frac(size))
-    cs = glist([gopt(None if c is None else gvec(c)) for c in obs["cs"]])
-    fx = glist([gbool(b) for b in obs["fx"]])
-    mi = gnat(int(case["max_iter"]))
-    if any(c is None for c in obs["out"]):
-        raise ValueError("a module came back without a centre")
-    out = glist([gvec(c) for c in obs["out"]])
-    runs = obs["runs"]
-    parts = []
-    for r in runs[:-1]:
-        parts.append(f"trace_ok {W} {H} {tol} {mi} {cs} {fx} {glist([grec(it) for it in r['iters']])} "
-                     f"{glist([gvec(p) for p in r['final']])}")
-    last = runs[-1]
-    parts.append(f"run_ok {W} {H} {tol} {mi} {cs} {fx} {glist([grec(it) for it in last['iters']])} "
-                 f"{glist([gvec(p) for p in last['final']])} {out}")
-    if case["mode"] == "layout":
-        if len(runs) != 1 or obs["costs"]:
-            raise ValueError("unexpected trace shape for a single layout")
-        parts.append(gbool(last["kappa"] == float(case["kappa"])))
-    else:
-        if len(runs) != 13 or len(obs["costs"]) != 12:
-            raise ValueError(f"unexpected trace shape for force_algorithm: {len(runs)} runs, {len(obs['costs'])} costs")
-        parts.append(gbool([r["kappa"] for r in runs[:12]] == [k for k, _ in obs["costs"]]))
-        kcs = glist([f"({gq(k)}, {gq(c)})" for k, c in obs["costs"]])
-        parts.append(f"select_ok (qc 1 1000000000000000) {kcs} {gq(last['kappa'])}")
-    return " && ".join(f"({p})" for p in parts)
+    Wf, Hf = float(case["W"]), float(case["H"])
+    W, H = gq(Wf), gq(Hf)
+    tol = gq(F(1, 10 ** 9) * core.frac(max(Wf, Hf)))
+    names = [m["name"] for m in obs["init"]["snap"]["mods"]]
+    cs, fx, ps, ns = gstate(obs["init"])
+    hops = []
+    prev = obs["init"]
+    for st, o in zip(steps_of(case), obs["steps"]):
+        if st["op"] in CALLS:
+            if any(c is None for c in o["after"]["cs"]):
+                raise ValueError("a module came back without a centre")
+            hops.append(greloc(st, o))
+        else:
+            if st["op"] == "deepcopy":
+                hops.append("HCopy")
+            # what the caller's step did to the values: followed, not judged.  Centres: the one it wrote - and, e.g.,
+            # a new Die(...) on a netlist whose squares were just created makes the netlist recompute the centres of
+            # those modules from their squares.  Payloads: squares created, a square dragged along by an in-place
+            # edit of the Point it shares, rectangles relabelled.
+            for v, (cb, ca) in enumerate(zip(prev["cs"], o["after"]["cs"])):
+                if cb != ca:
+                    if ca is None:
+                        raise ValueError("a caller step removed a centre")
+                    hops.append(f"HSetCentre {gnat(v)} {gvec(ca)}")
+            for v, (mb, ma) in enumerate(zip(prev["snap"]["mods"], o["after"]["snap"]["mods"])):
+                if payload(mb) != payload(ma):
+                    hops.append(f"HSetPayload {gnat(v)} {gpl(payload(ma))}")
+        hops.append("HCheck %s %s %s %s" % gstate(o["after"]))
+        prev = o["after"]
+    return (f"hist_ok {W} {H} {tol} (qc 1 1000000000000000) (mkNl (cmods {cs} {fx} {ps}) {ns}) "
+            f"{glist(['(' + h + ')' for h in hops])}")
 
 
 # ---------------------------------------------------------------- the direct oracle
@@ -308,23 +679,24 @@ def ulp_tol(*mags):
     return 4 * F(2) ** -52 * max(core.frac(abs(m)) for m in mags)
 
 
-def oracle(case, obs):
+def oracle_call(case, o):
+    """the property, for one relocation call: from the values before the call to the values after it"""
     W, H = core.frac(float(case["W"])), core.frac(float(case["H"]))
-    if obs["files"] or obs["imgs"]:
-        return f"the run produced files or images: {obs['files']} {obs['imgs']}"
+    b, a = o["before"], o["after"]
     # nothing but centres changed
-    if obs["before"] != obs["after"]:
-        b, a = obs["before"], obs["after"]
-        if [m["name"] for m in b["mods"]] != [m["name"] for m in a["mods"]]:
+    if b["snap"] != a["snap"] or b["fx"] != a["fx"]:
+        if [m["name"] for m in b["snap"]["mods"]] != [m["name"] for m in a["snap"]["mods"]]:
             return "the set or order of modules changed"
-        if b["nets"] != a["nets"]:
+        if b["snap"]["nets"] != a["snap"]["nets"]:
             return "the nets changed"
-        for mb, ma in zip(b["mods"], a["mods"]):
+        for mb, ma in zip(b["snap"]["mods"], a["snap"]["mods"]):
             if mb != ma:
                 what = [k for k in mb if mb[k] != ma[k]]
-                return f"module {mb['name']}: {', '.join(what)} changed"
-    for i, c in enumerate(obs["out"]):
-        name = obs["before"]["mods"][i]["name"]
+                det = f" ({mb['rects']} -> {ma['rects']})" if what == ["rects"] else ""
+                return f"module {mb['name']}: {', '.join(what)} changed{det}"
+        return "the fixed flags changed"
+    for i, c in enumerate(a["cs"]):
+        name = b["snap"]["mods"][i]["name"]
         if c is None:
             return f"module {name} has no centre in the returned netlist"
         if not (math.isfinite(c[0]) and math.isfinite(c[1])):
@@ -333,68 +705,149 @@ def oracle(case, obs):
         tx, ty = ulp_tol(W), ulp_tol(H)
         if not (-tx <= x <= W + tx and -ty <= y <= H + ty):
             return f"module {name}: centre {c} is outside the die {float(W)} x {float(H)}"
-        if obs["fx"][i]:
-            c0 = obs["cs"][i]
+        if b["fx"][i]:
+            c0 = b["cs"][i]
             if c0 is None:
                 continue
             if abs(x - core.frac(c0[0])) > ulp_tol(W, c0[0]) or abs(y - core.frac(c0[1])) > ulp_tol(H, c0[1]):
                 return f"fixed module {name} moved from {c0} to {c}"
-    if obs["out"] != obs["out2"] or not obs["trace_equal"]:
-        return "two runs on identical inputs returned different layouts"
-    if case["mode"] == "algo":
-        if "ret_cost" not in obs:
+    if o["kind"] == "algo":
+        if "ret_cost" not in o:
             return "returned layout has no cost"
-        best = min(c for _, c, _ in obs["cand"])
+        best = min(c for _, c, _ in o["cand"])
         slack = 1e-9 * max(1.0, abs(best))
-        if not obs["ret_cost"] <= best + slack:
-            kb = [k for k, c, _ in obs["cand"] if c == best][0]
-            return (f"returned layout costs {obs['ret_cost']!r} but the layout of spring constant {kb} costs {best!r} "
-                    f"(candidates {[(k, c) for k, c, _ in obs['cand']]})")
+        if not o["ret_cost"] <= best + slack:
+            kb = [k for k, c, _ in o["cand"] if c == best][0]
+            return (f"returned layout costs {o['ret_cost']!r} but the layout of spring constant {kb} costs {best!r} "
+                    f"(candidates {[(k, c) for k, c, _ in o['cand']]})")
         # and it must be one of the candidate layouts
-        if not any(ck == obs["out"] for _, _, ck in obs["cand"]):
+        if not any(ck == a["cs"] for _, _, ck in o["cand"]):
             return "returned layout is none of the layouts of the spring constants 0.4 .. 1.5"
+    # deterministic: the same values in other objects give the same values
+    for name, tw in o["twins"].items():
+        if tw is None:
+            continue
+        what = {"deepcopy": "a deep copy of the die taken just before the call",
+                "rebuilt": "a die with the same values built afresh from the YAML text"}[name]
+        if tw["cs"] != a["cs"]:
+            return f"not deterministic: the same call on {what} returned the centres {tw['cs']} instead of {a['cs']}"
+        if not tw["rest_equal"]:
+            return f"not deterministic: the same call on {what} left other areas / rectangles / nets"
+    return None
+
+
+def oracle(case, obs):
+    for i, (st, o) in enumerate(zip(steps_of(case), obs["steps"])):
+        if st["op"] in CALLS:
+            why = oracle_call(case, o)
+            if why:
+                if len(obs["steps"]) == 1:
+                    return why
+                done = " > ".join(short(s) for s in steps_of(case)[:i]) or "nothing"
+                return f"step {i + 1} of the history ({st['op']}, after {done}): {why}"
     return None
 
 
 def failure_key(case, why):
-    return f"C13/{case['mode']}"
+    sts = steps_of(case)
+    kind = "algo" if any(s["op"] == "algo" for s in sts) else "layout"
+    return f"C13/{kind}" + ("-history" if len(sts) > 1 else "")
 
 
 def shrink(case):
+    case = normalise(case)
+    hist = case["hist"]
+    # fewer steps (a relocation call must remain)
+    for i in range(len(hist)):
+        rest = hist[:i] + hist[i + 1:]
+        if any(s["op"] in CALLS for s in rest):
+            yield dict(case, hist=rest)
     ms = case["mods"]
     for i in range(len(ms)):
         if len(ms) > 1:
             nm = ms[i]["name"]
             nets = [dict(e, mods=[x for x in e["mods"] if x != nm]) for e in case["nets"]]
             nets = [e for e in nets if len(e["mods"]) >= 2]
-            yield dict(case, mods=ms[:i] + ms[i + 1:], nets=nets)
+            h2 = [s for s in hist if not (s["op"] == "set" and s["mod"] == nm)]
+            yield dict(case, mods=ms[:i] + ms[i + 1:], nets=nets, hist=h2)
     for i in range(len(case["nets"])):
         yield dict(case, nets=case["nets"][:i] + case["nets"][i + 1:])
-    if case["max_iter"] > 1:
-        yield dict(case, max_iter=case["max_iter"] // 2)
-        yield dict(case, max_iter=case["max_iter"] - 1)
+    for i, s in enumerate(hist):
+        if s["op"] in CALLS and s["max_iter"] > 1:
+            for mi in (s["max_iter"] // 2, s["max_iter"] - 1):
+                yield dict(case, hist=hist[:i] + [dict(s, max_iter=mi)] + hist[i + 1:])
 
 
 def nontrivial(case):
     kinds = {m["kind"] for m in case["mods"]}
-    return case["max_iter"] >= 1 and len(case["mods"]) >= 2 and "soft" in kinds
+    return (any(s["op"] in CALLS and s["max_iter"] >= 1 for s in steps_of(case)) and len(case["mods"]) >= 2
+            and "soft" in kinds)
+
+
+def dist_key(case):
+    sts = steps_of(case)
+    if len(sts) == 1:
+        s = sts[0]
+        return f"{s['op']}/iter{min(s['max_iter'], 3)}{'+' if s['max_iter'] > 3 else ''}"
+    ops = [s["op"] for s in sts]
+    ncalls = sum(1 for o in ops if o in CALLS)
+    return (f"history/{min(ncalls, 3)}call{'s' if ncalls > 1 else ''}/{'algo' if 'algo' in ops else 'layout'}"
+            + ("/squares" if "squares" in ops or "alloc" in ops else "") + ("/edit" if "set" in ops else "")
+            + ("/copy" if "deepcopy" in ops or "newdie" in ops or "reread" in ops else ""))
+
+
+def long_case(rng):
+    """an iteration count across the next power of two, on a small netlist (the exact replay grows quadratically)"""
+    while True:
+        c = gen_case(rng, "layout")
+        if len(c["mods"]) <= 3:
+            c["max_iter"] = rng.choice([31, 32, 33])
+            return c
 
 
 def run(ctx, out, replay=None):
-    n = 130 if ctx.quick() else 2600
+    quick = ctx.quick()
+    n_single, n_tie, n_big, n_long, n_hist = (52, 4, 3, 1, 44) if quick else (700, 40, 24, 4, 500)
     out.rule = ("dies k/4 (25% decimal k/10), 1-7 modules mixing soft / hard / fixed (rectangles in separate die cells) / "
-                "terminal with, without and with fixed centre; centres inside, on the border, in the corners, at the die "
-                "centre, coincident; 0-4 nets of arity 2-5, weights {0.5,1,2,2.5,3,10}; kappa in 0.4..1.5, 0.01, 10; "
-                "max_iter 0..20; 8% of the cases run force_algorithm (13 layouts each). non-trivial = at least one "
+                "terminal with, without and with fixed centre, in any order; centres inside, on the border, in the corners, "
+                "at the die centre, coincident, 12% all on one vertical/horizontal line; 20% equal areas; names M0.. or "
+                "(20%) prefixes/suffixes of each other (H1, H1_0, H1_io, H10, _ ..); 0-4 nets of arity 2-5, weights "
+                "{0.5,1,2,2.5,3,10}, 15% a net listed twice; 30% whole numbers written as YAML integers (die string too); "
+                "kappa in 0.4..1.5, 0.01, 10; max_iter 0..20 incl. 9/10, 15/16/17 (a few 31-33); calls positional or by "
+                "keyword (default kappa not passed). ONE-CALL cases on a netlist fresh from YAML (1 in 12 "
+                "force_algorithm), plus TIES (two discs tangent from outside / inside, chord through a centre 3-4-5, "
+                "centre on the other border, concentric; areas pi r^2; 0-2 iterations) and MANY modules (9-11, 15-17, "
+                "32-33: names M1/M10/M11). "
+                "HISTORIES on one Die/Netlist object graph (about 40% of the cases): prep (create_squares | "
+                "create_initial_allocation | deepcopy | new Die on the same netlist, maybe a centre written by the caller, "
+                "then a call), again (a call, 0-2 caller steps, a second call - 55% with the very same arguments - maybe a "
+                "third) and walk (3-6 random steps, up to 3 calls); caller steps: squares, alloc, centre written in "
+                "place on the Point or by assigning a new Point (inside the die), deepcopy, newdie, reread (write_yaml, read back into a new Die); 30-45% of the calls of a "
+                "history are force_algorithm. Every call is run on the die as it is, on a deep copy taken just before, and "
+                "on a die rebuilt from the YAML text with the same values. non-trivial = a call with at least one "
                 "iteration, two modules, one of them soft; distinct by canonical hash")
-    cases = []
+    first = []
     if replay and "case" in replay:
-        cases.append(fr.unjson(replay["case"]))
-    cases += fr.load_corpus("C13")
-    k = 0
-    while len(cases) < n:
-        k += 1
-        cases.append(gen_case(ctx.rng, "algo" if k % 12 == 0 else "layout"))
+        first.append(normalise(fr.unjson(replay["case"])))
+    first += [normalise(c) for c in fr.load_corpus("C13")]
+    rng = ctx.rng
+    light = [normalise(gen_case(rng, "algo" if k % 12 == 11 else "layout")) for k in range(n_single)]
+    light += [normalise(gen_tie_case(rng)) for _ in range(n_tie)]
+    sizes = [10, 16, 33] if quick else [9, 10, 11, 15, 16, 17, 32, 33]
+    light += [normalise(gen_case(rng, "layout", n=sizes[k % len(sizes)])) for k in range(n_big)]
+    light += [normalise(long_case(rng)) for _ in range(n_long)]
+    heavy = [gen_hist_case(rng, ["prep", "again", "again", "walk"][i % 4]) for i in range(n_hist)]
+    # interleaved, so that every Coq shard gets the same mix of cheap and expensive cases
+    cases, a, b = list(first), 0, 0
+    while a < len(light) or b < len(heavy):
+        if a < len(light) and (b >= len(heavy) or a * len(heavy) <= b * len(light)):
+            cases.append(light[a])
+            a += 1
+        else:
+            cases.append(heavy[b])
+            b += 1
     fr.run_cases(ctx, out, cases, run_impl, to_coq, oracle, failure_key, HEADER,
-                 dist_key=lambda c: f"{c['mode']}/iter{min(c['max_iter'], 3)}{'+' if c['max_iter'] > 3 else ''}",
-                 nontrivial=nontrivial, shard=12, shrink=shrink)
+                 dist_key=dist_key, nontrivial=nontrivial, shard=5, shrink=shrink)
+    out.extra["relocation_calls"] = sum(1 for c in cases for s in steps_of(c) if s["op"] in CALLS)
+    out.extra["history_cases"] = sum(1 for c in cases if len(steps_of(c)) > 1)
+    out.extra["implementation_runs"] = dict(STATS)
